@@ -56,11 +56,13 @@ for _k, _v in _KINDS.items():
     PROPS[_k]["replay_kinds"] = _v
 # step-level validation against the step machines through the hooks ("quick": every run, "thorough": thorough tier only):
 # wrap() / MC_Wrap (STEPS), unfill() / MC_Refill (USTEPS), dedent() + indent() / MC_Indent (DSTEPS), fill_inplace() / MC_Inplace (ISTEPS),
-# wrap_columns() / MC_Columns (CSTEPS), wrap_first_fit() / MC_FirstFit (FFSTEPS), wrap_optimal_fit() / MC_Optimal (OSTEPS)
+# wrap_columns() / MC_Columns (CSTEPS), wrap_first_fit() / MC_FirstFit (FFSTEPS), wrap_optimal_fit() / MC_Optimal (OSTEPS),
+# find_words() / MC_Words (WSTEPS), split_words() + break_apart() / MC_Break (BSTEPS)
 _STEPGENS = {
     "C01": [("STEPS", "quick")], "C07": [("STEPS", "quick"), ("FFSTEPS", "quick")],
     "C02": [("STEPS", "thorough")], "C03": [("OSTEPS", "quick"), ("STEPS", "thorough")], "C05": [("STEPS", "thorough")], "C08": [("STEPS", "thorough")],
     "C09": [("STEPS", "thorough")], "C06": [("FFSTEPS", "quick"), ("OSTEPS", "quick")], "C15": [("USTEPS", "quick")],
+    "C11": [("WSTEPS", "quick")], "C12": [("BSTEPS", "quick")], "C13": [("BSTEPS", "thorough"), ("WSTEPS", "thorough")],
     "C17": [("ISTEPS", "quick")], "C18": [("DSTEPS", "quick")], "C19": [("DSTEPS", "quick")], "C20": [("CSTEPS", "quick")],
 }
 for _k, _v in _STEPGENS.items():
